@@ -120,6 +120,10 @@ def make_vector_arrays(data, ndim):
                     rawkey = key[:cut] + key[ind + 1 :]
                     if len(rawkey) == 0:
                         rawkey = "position"
+                    if (rawkey in data) and (rawkey not in comp_list):
+                        # The name of the merged vector is already taken by another
+                        # variable: keep the components as they are
+                        continue
                     data[rawkey] = Vector(
                         **{components[c]: data[comp_list[c]] for c in range(ndim)}
                     )
